@@ -14,9 +14,9 @@
  *   - both queues are NULL terminated (no cycle within NT+1 steps);
  *   - every task that was handed to the module is in exactly one place: in exactly one queue exactly
  *     once, or returned by exactly one select;  a task never handed to the module is nowhere;
- *   - a select that returned NULL... is allowed (a concurrent writer may have the list detached);
- *   - then check() drains sequentially with the real select on both streams and requires that every
- *     task has come out exactly once overall.
+ *   - a concurrent select may return NULL (a writer may have the list detached at that instant): not an error;
+ *   (a sequential drain of NULL-terminated, duplicate-free queues with the real select is what the
+ *    sequential C08 queries check; repeating it here only costs solver time).
  */
 #include "vp_harness.h"
 #include "parsec/parsec_config.h"
@@ -47,13 +47,22 @@ int parsec_debug_output, parsec_debug_verbose, parsec_debug_colorize, parsec_deb
 #ifndef SCEN
 #define SCEN 1
 #endif
+#ifndef NT
 #define NT 5
-parsec_task_t T[NT];                     /* A B C D E */
-#define A (&T[0])
-#define B (&T[1])
-#define C (&T[2])
-#define D (&T[3])
-#define E (&T[4])
+#endif
+/* Task storage: only the prefix of parsec_task_t that the LIFO modules touch (list links and the priority read
+ * through COMPARISON_VAL at offsetof(parsec_task_t, priority)); a full parsec_task_t is 984 bytes and every
+ * symbolic-pointer access to an array of them costs the symbolic executor minutes per step. */
+typedef struct { parsec_list_item_t super; parsec_thread_mempool_t *mempool_owner; parsec_taskpool_t *taskpool;
+                 const parsec_task_class_t *task_class; int32_t priority; int32_t pad; } task_prefix_t;
+_Static_assert(offsetof(task_prefix_t, priority) == offsetof(parsec_task_t, priority), "prefix layout matches parsec_task_t");
+task_prefix_t TS[NT];                    /* A B C D E */
+#define TK(i) ((parsec_task_t *)&TS[i])
+#define A TK(0)
+#define B TK(1)
+#define C TK(2)
+#define D TK(3)
+#define E TK(4)
 parsec_vp_t VP;
 parsec_execution_stream_t ES0, ES1;
 qobj_t Q0, Q1;
@@ -86,6 +95,18 @@ void thread1(void) { int32_t d; r[0] = SELECT(&ES1, &d); SCHEDULE(&ES0, C, 0); }
 void setup(void) { base_setup(); one(A, 5); one(B, 1); one(C, 9); seed(&Q0, A); given[0] = given[1] = given[2] = 1; }
 void thread0(void) { SCHEDULE(&ES0, B, 0); }
 void thread1(void) { int32_t d; r[0] = SELECT(&ES1, &d); SCHEDULE(&ES0, C, 0); }
+#elif SCEN == 7 /* as 1, but the interfering thread uses the LIFO primitives directly (what select/steal and a push boil down to) */
+void setup(void) { base_setup(); one(A, 5); one(B, 5); one(C, 9); seed(&Q0, A); given[0] = given[1] = given[2] = 1; }
+void thread0(void) { SCHEDULE(&ES0, B, 0); }
+void thread1(void) { r[0] = (parsec_task_t *)parsec_lifo_pop(&Q0.lifo); parsec_lifo_push(&Q0.lifo, &C->super); }
+#elif SCEN == 8 /* as 2 (B lower than A), interfering thread on the LIFO primitives */
+void setup(void) { base_setup(); one(A, 5); one(B, 1); one(C, 9); seed(&Q0, A); given[0] = given[1] = given[2] = 1; }
+void thread0(void) { SCHEDULE(&ES0, B, 0); }
+void thread1(void) { r[0] = (parsec_task_t *)parsec_lifo_pop(&Q0.lifo); parsec_lifo_push(&Q0.lifo, &C->super); }
+#elif SCEN == 9 /* smallest interference that makes the fast-path CAS fail: q0=[A(5)]   T0: schedule(es0,{B(5)},0)   T1: push C(9) on q0 */
+void setup(void) { base_setup(); one(A, 5); one(B, 5); one(C, 9); seed(&Q0, A); given[0] = given[1] = given[2] = 1; }
+void thread0(void) { SCHEDULE(&ES0, B, 0); }
+void thread1(void) { parsec_lifo_push(&Q0.lifo, &C->super); }
 #elif SCEN == 3 /* q0=[A(5),D(3)]   T0: schedule(es0, ring{B(4),E(2)}, 0) (detach + merge)    T1: select(es1); select(es1) */
 void setup(void) { base_setup(); one(A, 5); one(D, 3); one(B, 4); one(E, 2); two(B, E); seed(&Q0, D); seed(&Q0, A);
                    given[0] = given[1] = given[3] = given[4] = 1; }
@@ -110,28 +131,23 @@ static int held(parsec_task_t *t) { int n = 0; for (int k = 0; k < 4; k++) if (r
 
 void check(void)
 {
-    int in0[NT] = {0, 0, 0, 0, 0}, in1[NT] = {0, 0, 0, 0, 0}, n0 = 0, n1 = 0;
+    int in0[NT], in1[NT], n0 = 0, n1 = 0;
+    for (int k = 0; k < NT; k++) in0[k] = in1[k] = 0;
     parsec_list_item_t *p;
     for (p = Q0.lifo.lifo_head.data.item; p != NULL && n0 < NT + 1; p = (parsec_list_item_t *)p->list_next, n0++)
-        for (int k = 0; k < NT; k++) if (p == &T[k].super) in0[k]++;
+        for (int k = 0; k < NT; k++) if (p == &TS[k].super) in0[k]++;
     for (p = Q1.lifo.lifo_head.data.item; p != NULL && n1 < NT + 1; p = (parsec_list_item_t *)p->list_next, n1++)
-        for (int k = 0; k < NT; k++) if (p == &T[k].super) in1[k]++;
+        for (int k = 0; k < NT; k++) if (p == &TS[k].super) in1[k]++;
     VASSERTM(n0 <= NT && n1 <= NT, "both queues are NULL terminated (no cycle)");
     int nheld = 0;
     for (int k = 0; k < NT; k++) {
-        int places = in0[k] + in1[k] + held(&T[k]);
+        int places = in0[k] + in1[k] + held(TK(k));
         VASSERTM(places == given[k], "every task handed to the module is in exactly one place (one queue once, or one select), others nowhere");
-        nheld += held(&T[k]);
+        nheld += held(TK(k));
     }
-    /* drain with the real select, sequentially */
-    int out[NT] = {0, 0, 0, 0, 0};
-    for (int k = 0; k < NT; k++) out[k] = held(&T[k]);
-    for (int i = 0; i < NT + 1; i++) {
-        int32_t d; parsec_task_t *t = SELECT(&ES0, &d);
-        if (t == NULL) break;
-        for (int k = 0; k < NT; k++) if (t == &T[k]) out[k]++;
-    }
-    { int32_t d; VASSERTM(SELECT(&ES0, &d) == NULL && SELECT(&ES1, &d) == NULL, "after the drain both streams report empty"); }
-    for (int k = 0; k < NT; k++) VASSERTM(out[k] == given[k], "every task came out of a select exactly once overall");
+#if SCEN == 9
+    if (n0 == 3) VWITNESS("three tasks queued after a concurrent schedule and push");
+#else
     if (nheld >= 1 && n0 + n1 >= 1) VWITNESS("a concurrent select got a task and tasks remain queued");
+#endif
 }
